@@ -376,7 +376,7 @@ func alphabet(n int) []ev {
 }
 
 func run(c *lib.Ctx) {
-	c.Rule("event sequences over {reg, connect(p,c) incl. self/ancestor/existing, disconnect ok/fail incl. non-children, exit, kill-date, operator mark dead/alive} on 3 agents: exhaustive suffixes of length <= 2 (quick) / <= 3 (thorough) after the prefixes [reg 0] and [reg 0, connect(0,1), connect(0,2)], plus random sequences of length <= 12 on 4 agents incl. ids >= 2^31; " +
+	c.Rule("event sequences over {reg, connect(p,c) incl. self/ancestor/existing, disconnect ok/fail incl. non-children, exit, kill-date, operator mark dead/alive} on 3 agents: exhaustive suffixes of length <= 2 (quick) / <= 3 (thorough) after the prefixes [reg 0], [reg 0, connect(0,1), connect(0,2)] (star), [reg 0, connect(0,1), connect(1,2)] (chain) and, on 4 agents, [reg 0, connect(0,1), connect(0,2), connect(0,3)] (three links; suffix length 1, 2 thorough), plus random sequences of length <= 12 on 4 agents incl. ids >= 2^31; " +
 		"distinct = distinct (ids, executed event sequence); non-trivial = at least two executed events")
 	c.Assume("events travel as real callbacks through the listener engine, relayed through the parent chain the teamserver itself records", "invariants are read from the live objects at quiescence (single goroutine) and from TS_Links through a separate read-only connection")
 	one := func(h history) {
@@ -410,6 +410,27 @@ func run(c *lib.Ctx) {
 	if c.Thorough() {
 		depth = 3
 	}
+	// a parent with three links (four agents): suffixes of length 1 (2 thorough) over the 4-agent alphabet
+	wide := []ev{{Op: "reg", A: 0}, {Op: "connect", A: 0, B: 1}, {Op: "connect", A: 0, B: 2}, {Op: "connect", A: 0, B: 3}}
+	widx := 0
+	var recW func(pre []ev, d int)
+	recW = func(pre []ev, d int) {
+		if d == 0 {
+			widx++
+			if c.Mine(widx) {
+				one(history{IDs: idPool[widx%2], Events: pre, Seed: int64(widx)})
+			}
+			return
+		}
+		for _, e := range alphabet(4) {
+			recW(append(append([]ev{}, pre...), e), d-1)
+		}
+	}
+	recW(wide, 1)
+	if c.Thorough() {
+		recW(wide, 2)
+	}
+	c.Observe("exhaustive.wide-sequences", int64(widx))
 	idx := 0
 	var rec func(pre []ev, d int)
 	rec = func(pre []ev, d int) {
